@@ -18,7 +18,8 @@
 (*                                  harness' concrete verdicts             *)
 (*   AddSet{kind,basis,set,r,alias} submission and its result              *)
 (*   Lookup{kind,id,r,k}            PoolTransaction / V2PoolTransaction    *)
-(*   Mine{r}                        block built from the reported pool     *)
+(*   Mine{r,ids}                    block assembled by coreutils.MineBlock *)
+(*                                  from the reported pool                 *)
 (*   Rebase{set,from,to,corrupt,r,ids,eph,proofs,nopanic}                  *)
 (*   TxSet{x,basis,r,ids,k,nopanic}                                        *)
 (***************************************************************************)
@@ -28,7 +29,7 @@ ScJ == JsonDeserialize(IOEnv.POOLSC)
 ToSet(s) == {s[i] : i \in 1..Len(s)}
 FixTx(x) == [ins |-> ToSet(x.ins), refs |-> ToSet(x.refs), outs |-> ToSet(x.outs), kind |-> x.kind, w |-> x.w]
 FixSc(c) ==
-    [n |-> c.n, v1ok |-> c.v1ok, maxpool |-> c.maxpool, parent |-> c.parent, height |-> c.height, body |-> c.body,
+    [n |-> c.n, v1ok |-> c.v1ok, maxpool |-> c.maxpool, maxblock |-> c.maxblock, parent |-> c.parent, height |-> c.height, body |-> c.body,
      creates |-> [b \in 1..c.n |-> ToSet(c.creates[b])],
      spends  |-> [b \in 1..c.n |-> ToSet(c.spends[b])],
      ntx |-> c.ntx, tx |-> [t \in 1..c.ntx |-> FixTx(c.tx[t])]]
@@ -97,7 +98,15 @@ TLookup ==
     /\ reply'.r = Ev.r /\ reply'.k = Ev.k
     /\ obs' = ObsOK
 
-TMine == Step("Mine") /\ Mine /\ obs' = [ObsOK EXCEPT !.mine = (Ev.r = "accepted")]
+\* the body that coreutils.MineBlock assembled on the real node (ids, in block order) and whether core
+\* on the independent ledger, a copy of the node and a fresh linear node accepted it are taken from the
+\* log and JUDGED by Minable / MinedIsPrefix / MinedSelfContained / MinedFits
+TMine ==
+    /\ Step("Mine") /\ Fresh
+    /\ act' = [op |-> "Mine"]
+    /\ reply' = [NoReply EXCEPT !.r = Ev.r, !.ids = Ev.ids]
+    /\ obs' = [ObsOK EXCEPT !.mine = (Ev.r = "accepted")]
+    /\ Keep
 
 \* the replies of Rebase / TxSet are taken from the log and JUDGED by the action properties
 \* RebaseResult / RebaseErrors / ParentsFirst / BasisIsTip / TxSetErrors (the properties say what
